@@ -566,7 +566,7 @@ impl Prop for C02 {
     }
 
     fn rule(&self) -> String {
-        "Fault-reachable inputs only: each run takes a reference-encoded seeded wire tree and applies 1-3 faults from a per-run random subset of 20 kinds (Byzantine printer: lying name/value lengths (+-1, 0, max, swallow-next), fixed-width values written with width 0-16, lying inner lengths of the with-language syntaxes, tag substitution by any byte, token delete / duplicate / swap / splice from another message, collection imbalance; in-flight: bit flips, byte overwrite, truncation with/without garbage tail, chunk drop / duplication / swap, garbage insertion), plus a fixed list of structural bombs per tier (nesting depth up to 100000 / 1 MiB in six shapes incl. named inner begins, member names in the name field and seeded mixes of shapes; set width, group and attribute count). The damaged stream is delivered under a seeded schedule to one of the four parser front ends; whatever comes back is displayed, re-encoded, traversed, cloned and dropped; then IppValue::parse is called on every (tag, value) element the reference tokenizer can still cut out. Runs execute on 2 MiB threads inside isolated worker processes; a killed worker is attributed to the run it was executing. Invariants: no panic, no process death, source calls <= 2*len + events + 64, <= 8 reads after EOF, executor poll bound, 60 s watchdog. distinct_nontrivial = distinct hashes of (input bytes prefix+length, front end, source call sequence) among damaged or bomb inputs longer than 9 bytes. NOT covered: the exhaustive (tag x length x fill) grid and the all-token-sequences-up-to-k enumeration of the quantifier."
+        "Fault-reachable inputs only: each run takes a reference-encoded seeded wire tree and applies 1-3 faults from a per-run random subset of 20 kinds (Byzantine printer: lying name/value lengths (+-1, 0, max, swallow-next), fixed-width values written with width 0-16, lying inner lengths of the with-language syntaxes, tag substitution by any byte, token delete / duplicate / swap / splice from another message, collection imbalance; in-flight: bit flips, byte overwrite, truncation with/without garbage tail, chunk drop / duplication / swap, garbage insertion), plus a fixed list of structural bombs per tier (nesting depth up to 100000 / 1 MiB in six shapes incl. named inner begins, member names in the name field and seeded mixes of shapes; set width, group and attribute count). The damaged stream is delivered under a seeded schedule to one of the four parser front ends; whatever comes back is displayed, re-encoded, traversed, cloned and dropped; then IppValue::parse is called on every (tag, value) element the reference tokenizer can still cut out. Runs execute on 2 MiB threads inside isolated worker processes; a killed worker is attributed to the run it was executing. Invariants: no panic, no process death, source calls <= 2*len + events + 64, <= 8 reads after EOF, executor poll bound, 240 s watchdog. distinct_nontrivial = distinct hashes of (input bytes prefix+length, front end, source call sequence) among damaged or bomb inputs longer than 9 bytes. NOT covered: the exhaustive (tag x length x fill) grid and the all-token-sequences-up-to-k enumeration of the quantifier."
             .into()
     }
     fn assumptions(&self) -> Vec<String> {
